@@ -96,6 +96,12 @@ def domain(tier):
             longs.append(b"x" * 30 + pat + b"x" * 30)
             longs.append(pat + b"x" * 60)
             longs.append(b"x" * 60 + pat)
+    # the writer has one loop for valid UTF-8 text and one for other byte strings: every byte followed by a digit / a letter, in a
+    # string that is not valid UTF-8 as a whole (the stray byte before it, and after it)
+    for a in range(256):
+        for b in (ord("0"), ord("9"), ord("a")):
+            longs.append(b"\xff" + bytes([a, b]))
+            longs.append(bytes([a, b]) + b"\xff")
     longs += [b"\x1b1", b"\x001", b"\xc3\xa91", b"ab\"c'd", b"\\n", b"\\\\", b"a\\", b"\xe2\x97\x81", b"\xf0\x9f\x98\x80", b"\xed\xa0\x80", b"\xc0\x80"]
     return one + pairs + longs
 
